@@ -57,7 +57,8 @@ def session(rng, cuts):
                                 b'{"name":"zz","key":"@KEY:KA@","channel":"a/b/","subscribe":true}']), False)
         elif odd == 1:
             will = ("-", b"a", b"alias%d" % v, False)      # the will topic is the name of a shortcut, no key: never published
-        s.conn(name, user=rng.choice([b"", b"vic"]), will=will)
+        noconnect = will is None and rng.randrange(4) == 0      # a session without a CONNECT packet still subscribes, links, watches
+        s.conn(name, user=rng.choice([b"", b"vic"]), will=will, connect=not noconnect)
         held = []
         if odd == 1:
             s.link(name, b"a", "KA", b"a/b/", rng.randrange(2) == 1)
